@@ -431,7 +431,7 @@ Proof. destruct m, o as [rg|]; cbn; try discriminate; intros [= <-]; [left; auto
 Lemma fstep_preserves s s' : fstore_ok s -> fstep V p sem2 sem1 call_sem name_code c idom s s' -> fstore_ok s'.
 Proof.
   intros Hok Hst. pose proof Hok as [Hs Hz]. destruct Hst as
-    [m x op rhe sv st F s Hin Hloc Hnp Hphi Hden | m x op args k sv st pick s Hin Hloc Hnp Hpa Hps Hpick | m x op rhe sv st s Hin Hloc Hnp];
+    [m x op rhe sv st F s Hin Hloc Hnp Hphi Hden | m x op args k sv st pick s Hin Hloc Hnp Hpa Hps Hpick];
     (split; [|intros y G Hu Hy; unfold fupd in Hy; destruct (vname_eqb x y) eqn:E;
                 [apply vname_eqb_eq in E; subst y; rewrite (assigned_not_unassigned _ _ _ _ _ _ Hin) in Hu; discriminate
                 |eapply Hz; eauto]]).
@@ -486,7 +486,6 @@ Proof.
       destruct (iter_opt_all _ r (var_range c (pick r0)) Hio (in_map _ _ _ (Hpa r0))) as (ra & Era & Hle).
       apply (SemDeg_mono V line p (snd ra)); [exact Hle|]. apply (Hs (pick r0) G0 Ea ra Era).
     + eapply Hs; eauto.
-  - intros y G Hy r Hr. unfold fupd in Hy. destruct (vname_eqb x y) eqn:E; [discriminate|]. eapply Hs; eauto.
 Qed.
 
 (* initial stores: parameters (constants for templates, indeterminates for
